@@ -45,6 +45,15 @@ pub fn gen(tier: &str, seed: u64, emit: &mut dyn FnMut(String)) {
             emit(format!("PES {}", hex(&v)));
         }
     } }
+    // PTS and DTS related to each other: equal, one tick apart, either side of the 33-bit wrap
+    for _ in 0..(if big { 2000 } else { 200 }) {
+        let pts: u64 = match rng.below(4) { 0 => 0, 1 => (1 << 33) - 1, 2 => 1 << 32, _ => rng.below(1 << 33) };
+        let dts: u64 = match rng.below(4) { 0 => pts, 1 => (pts + 1) & ((1 << 33) - 1), 2 => pts.wrapping_sub(1) & ((1 << 33) - 1), _ => pts ^ (1 << rng.below(33)) };
+        let enc = |prefix: u8, v: u64| -> [u8; 5] { [(prefix << 4) | ((((v >> 30) & 7) as u8) << 1) | 1, (v >> 22) as u8, ((((v >> 15) & 0x7f) as u8) << 1) | 1, (v >> 7) as u8, (((v & 0x7f) as u8) << 1) | 1] };
+        let mut v = vec![0, 0, 1, 0xe0, 0, 0, 0x80, 0xc0, 10];
+        v.extend(enc(3, pts)); v.extend(enc(1, dts)); let tail = rng.bytes(8); v.extend(tail);
+        emit(format!("PES {}", hex(&v)));
+    }
     // start code: every single-byte deviation class
     for _ in 0..(if big { 4000 } else { 400 }) {
         let mut v = mk(&mut rng, 0xe0, 0x80, 0, 0, 20, false);
